@@ -141,5 +141,68 @@ def run(ctx):
                 any('min' in repr(x) for x in (t[2], t[3]))
             okret = shape and bool(bounded)
     ctx.check(okret, 'R2', 'the result is value % range + min, read after the loop bounded value by limit', where(ui), '', key='R2|uniform_int|result')
+    # ---- R3 uniform_real stays in [min, max] by construction ------------------------------------------------------------------------------------------
+    ctx.rule('R3', 'uniform_real: the result is the lower bound plus a fraction in [0, 1) of the width - min + (max - min) x numerator / divisor, factors in any order, '
+             'locals resolved - or is clamped to both bounds; the draw equal to the divisor is rejected.  A two-sided interpolation (1-r) x min + r x max rounds its two '
+             'products independently and leaves [min, max] for narrow or degenerate ranges', 2)
+    ur = P.fn(NS + 'XbtRandom::uniform_real')
+    vr = A.view(ur)
+    pmin, pmax = lib.parm(ur, 'min'), lib.parm(ur, 'max')
+
+    def strip(t):
+        while t[0] in ('cast', 'conv'):
+            t = t[2]
+        return t
+
+    def resolve(t, depth=0):
+        t = strip(t)
+        if t[0] == 'var' and t[1] == 'local' and depth < 5:
+            dd = [e_.rhs for eid_ in range(len(ur['elems'])) for e_ in vr.events_of(eid_) if e_.kind == 'assign' and e_.lhs == t and e_.rhs[0] != 'none']
+            if len(dd) == 1:
+                return resolve(dd[0], depth + 1)
+        return t
+
+    def factors(t, num, den, inv=False):
+        t = resolve(t)
+        if t[0] == 'bin' and t[1] == '*':
+            factors(t[2], num, den, inv)
+            factors(t[3], num, den, inv)
+        elif t[0] == 'bin' and t[1] == '/':
+            factors(t[2], num, den, inv)
+            factors(t[3], num, den, not inv)
+        else:
+            (den if inv else num).append(t)
+    rets = [e.val for p in vr.paths(max_visits=2) if p.exit not in ('noreturn', 'cut') for e in vr.path_events(p) if e.kind == 'return' and e.val is not None]
+    rets = list(dict.fromkeys(rets))
+    okshape = bool(rets)
+    detail = ''
+    for r in rets:
+        t = resolve(r)
+        clamp = t[0] == 'call' and t[1] in ('std::clamp',) and pmin in [strip(x) for x in t[3]] and pmax in [strip(x) for x in t[3]]
+        if clamp:
+            continue
+        good = False
+        if t[0] == 'bin' and t[1] == '+':
+            for lo, term in ((t[2], t[3]), (t[3], t[2])):
+                if strip(lo) != pmin:
+                    continue
+                num, den = [], []
+                factors(term, num, den)
+                width = [x for x in num if x[0] == 'bin' and x[1] == '-' and strip(x[2]) == pmax and strip(x[3]) == pmin]
+                rest = [x for x in num if x not in width]
+                draw = [x for x in rest if (x[0] == 'var' and x[2] == 'numerator') or 'mt19937_gen' in repr(x)]
+                good = len(width) == 1 and len(draw) == 1 and len(rest) == 1 and len(den) == 1 and (den[0][0] in ('int', 'float') or (den[0][0] == 'var' and den[0][2] == 'divisor'))
+        if not good:
+            okshape = False
+            detail = ex.pretty(t)
+    ctx.check(okshape, 'R3', 'uniform_real returns min + (max - min) x numerator / divisor (or a value clamped to [min, max])', where(ur),
+              'returns %s: not the one-sided form; two independently rounded products can leave [min, max]' % detail if not okshape else 'one-sided affine form', key='R3|uniform_real|one-sided form')
+    okrej = False
+    for h in vr.loop_heads():
+        at = vr.cond_atom(h['id'])
+        if at and at[0][0] == 'bin' and at[0][1] == '==' and any(strip(x)[0] == 'var' and strip(x)[2] == 'numerator' for x in (at[0][2], at[0][3])):
+            other = [strip(x) for x in (at[0][2], at[0][3]) if not (strip(x)[0] == 'var' and strip(x)[2] == 'numerator')]
+            okrej = bool(other) and (other[0][0] in ('int', 'float') or (other[0][0] == 'var' and other[0][2] == 'divisor'))
+    ctx.check(okrej, 'R3', 'uniform_real redraws while numerator == divisor (the fraction stays below 1)', where(ur), '', key='R3|uniform_real|rejection')
     ctx.assume('range and uniformity over all 32-bit ranges (arithmetic) are not decided; std::mt19937 produces the sequence fixed by the C++ standard')
     return EXPLANATION
